@@ -106,12 +106,13 @@ C20separator(s, sep, p) ==
 
 (* ---- decoration (get_label) ---- *)
 \* nd = [lab, edge (char seqs), head, split \in {"T","F","~"}, bn, inner \in BOOLEAN]
-\* o  = set of option names; gfsep = separator char
+\* o  = set of option names; gfsep = separator char, "~" for the empty separator
+SepChars(gfsep) == IF gfsep = "~" THEN <<>> ELSE <<gfsep>>
 StartsWithDash(e) == Len(e) > 0 /\ e[1] = "-"
 Decorate(nd, o, gfsep, bnchars) ==
   nd.lab \o
   (IF "gf" \in o /\ ~StartsWithDash(nd.edge) /\ (nd.inner \/ "gf_terminals" \in o)
-   THEN <<gfsep>> \o nd.edge ELSE <<>>) \o
+   THEN SepChars(gfsep) \o nd.edge ELSE <<>>) \o
   (IF "mark_heads_marking" \in o /\ nd.head = "T" THEN <<HeadMark>> ELSE <<>>) \o
   (IF "boyd_split_marking" \in o /\ nd.split = "T" THEN <<"*">> ELSE <<>>) \o
   (IF "boyd_split_numbering" \in o /\ nd.split = "T" THEN bnchars ELSE <<>>)
